@@ -250,6 +250,12 @@ static void run_case(const e4::Case& c, e4::Comm& comm, FILE* out) {
     }
   }
   comm.bcast(table);
+  // every host is through the partitioning stage: tell the driver, so that a
+  // crash before this marker is attributed to CuSP (property C19), not Gluon
+  if (comm.rank == 0) {
+    fprintf(out, "{\"stage\":%ld}\n", c.id);
+    fflush(out);
+  }
   unsigned long syncs = 0, nontrivial = 0, compared = 0;
   std::set<uint64_t> outcomes;
   unsigned long modeCalls0[8];
